@@ -114,10 +114,29 @@ func classifyLoop(p *core.Prog, fn *ssa.Function, h *ssa.BasicBlock, body map[*s
 			}
 		}
 	}
-	iff, _ := h.Instrs[len(h.Instrs)-1].(*ssa.If)
-	if iff != nil {
+	// the test that every iteration passes: at the top (the header), or, for a
+	// loop go/ssa has rotated (`for i := range n`), at the bottom (a latch)
+	tests := []*ssa.BasicBlock{h}
+	for _, pr := range h.Preds {
+		if body[pr] && pr != h && len(pr.Succs) == 2 && (!body[pr.Succs[0]] || !body[pr.Succs[1]]) {
+			onlyLatch := true
+			for _, q := range h.Preds {
+				if body[q] && q != pr {
+					onlyLatch = false
+				}
+			}
+			if onlyLatch {
+				tests = append(tests, pr)
+			}
+		}
+	}
+	for _, tb := range tests {
+		iff, _ := tb.Instrs[len(tb.Instrs)-1].(*ssa.If)
+		if iff == nil {
+			continue
+		}
 		f := p.FactOf(core.Guard{Cond: iff.Cond, Pol: true, If: iff})
-		stay := body[h.Succs[0]] // the true edge stays in the loop
+		stay := body[tb.Succs[0]] // the true edge stays in the loop
 		// counter / range: φ (+c) < bound, bound loop-invariant
 		if f.R != nil && (f.Op == "<" || f.Op == "<=" || f.Op == "!=") && stay || f.R != nil && (f.Op == ">=" || f.Op == ">" || f.Op == "==") && !stay {
 			var phi *ssa.Phi
@@ -736,4 +755,73 @@ func constSliceLen(p *core.Prog, v ssa.Value) (int64, bool) {
 		}
 	}
 	return 0, false
+}
+
+// vectorLoopsRunDry: a loop that reads items off a cursor leaves - other than
+// by an error return - only when that cursor is empty: a vector is a sequence
+// of whole items filling its length exactly, so a loop bounded by a count
+// computed from the length (len/4 ...) silently drops a truncated last item.
+func vectorLoopsRunDry(p *core.Prog, r *core.Run, fn *ssa.Function, rule string) {
+	n := 0
+	for h, body := range core.Loops(fn) {
+		// cursors read inside the loop (local cursor variables only)
+		curs := map[*ssa.Alloc]bool{}
+		for b := range body {
+			for _, in := range b.Instrs {
+				c, ok := in.(*ssa.Call)
+				if !ok || !matches(`\(\*cryptobyte\.String\)\.(Read.*|Skip|CopyBytes)`, p.X(c).Name) || len(c.Call.Args) == 0 {
+					continue
+				}
+				// (a cursor declared inside the loop belongs to one iteration: it
+				// is some inner loop's vector, not this one's)
+				if al, ok := c.Call.Args[0].(*ssa.Alloc); ok && !body[al.Block()] {
+					curs[al] = true
+				}
+			}
+		}
+		if len(curs) == 0 {
+			continue
+		}
+		for b := range body {
+			for _, s := range b.Succs {
+				if body[s] {
+					continue
+				}
+				// an error exit?
+				t := s
+				for k := 0; k < 4; k++ {
+					if _, isJ := t.Instrs[len(t.Instrs)-1].(*ssa.Jump); isJ && len(t.Succs) == 1 && !body[t.Succs[0]] {
+						t = t.Succs[0]
+						continue
+					}
+					break
+				}
+				if ret, ok := t.Instrs[len(t.Instrs)-1].(*ssa.Return); ok && !lastResultNil(ret) {
+					continue
+				}
+				n++
+				dry := false
+				for _, f := range p.EdgeFacts(b, s) {
+					var arg ssa.Value
+					switch {
+					case f.Op == "true" && f.L.Op == "call" && f.L.Name == "(cryptobyte.String).Empty":
+						if c, ok := f.L.Val.(*ssa.Call); ok && len(c.Call.Args) == 1 {
+							arg = c.Call.Args[0]
+						}
+					case (f.Op == "==" || f.Op == "<=") && f.R != nil && f.R.Name == "0" && f.L.Op == "call" && f.L.Name == "len":
+						if c, ok := f.L.Val.(*ssa.Call); ok && len(c.Call.Args) == 1 {
+							arg = c.Call.Args[0]
+						}
+					}
+					if ld, ok := arg.(*ssa.UnOp); ok && ld.Op == token.MUL {
+						if al, ok := ld.X.(*ssa.Alloc); ok && curs[al] {
+							dry = true
+						}
+					}
+				}
+				_ = h
+				r.Check(rule, fmt.Sprintf("%s:vector-loop-runs-dry@b%d", p.FuncName(fn), b.Index), dry, p.InstrPos(b.Instrs[len(b.Instrs)-1]), "the loop that reads items off a cursor ends (without error) only when that cursor is empty")
+			}
+		}
+	}
 }
